@@ -38,6 +38,7 @@ def project(line, what):
             if r[0] == "s" and "ev" in what: keep.append(r)
             elif r[0] == "p" and "probe" in what: keep.append(r)
             elif r[0] == "t" and "tap" in what: keep.append(r)
+            elif "x" in what and re.match(r"x2\d\d:", r): keep.append(r)     # handle bookkeeping of the `subhandles` step
         item = " ".join(keep)
         for k in ("S", "L", "O"):
             if k in what:
@@ -77,7 +78,9 @@ def cases_for(prop, tier, seed):
         return (gen.fam_unsub_positions(g, "C05-unsub", 40 * k) + gen.fam_hot(g, "C05-hot", 100 * k) +
                 # unsubscribe after a terminal / twice must have no effect on OTHER subscribers of the same subject either
                 # (publish re-connected after its source completed, subscribers that come and go around the terminal)
-                gen.fam_connectables(g, "C05-conn", 30 * k) + gen.fam_subjects(g, "C05-subj", 15 * k) + gen.fam_late_unsub(g, "C05-late"))
+                gen.fam_connectables(g, "C05-conn", 30 * k) + gen.fam_subjects(g, "C05-subj", 15 * k) + gen.fam_late_unsub(g, "C05-late") +
+                # several handles (clones, Using guards) of ONE Subscription: the teardown runs at most once
+                [gen.case("C05-handles-%d" % n, [["subhandles", str(n)]]) for n in range(6)])
     if prop == "C06":
         return (gen.fam_teardown(g, "C06-td", 100 * k) + gen.fam_ending_closures(g, "C06-ec") + [c for c in gen.fam_combinators(g, "C06-comb", 60 * k) if "flat_map" in c or "(unsub" in c] +
                 # the shared source of a connectable is a source subscribed on the subscribers' behalf: it must stop when the last one left
@@ -88,7 +91,12 @@ def cases_for(prop, tier, seed):
                 gen.fam_chains(g, "C07-chain", 100 * k) + gen.fam_hot(g, "C07-hot", 100 * k))
     if prop == "C10":
         return (gen.fam_subjects(g, "C10-subj", 100 * k, exhaustive_len=(4 if T else 3)) +
-                [c for c in gen.fam_reentrant(g, "C10-re", 0) if "(sub (ref a) (react" in c])
+                [c for c in gen.fam_reentrant(g, "C10-re", 0) if "(sub (ref a) (react" in c] +
+                # a LATE subscriber that pushes into the subject while it is still being handed the history
+                [gen.case("C10-lp-%s-%d-%d" % (kind, idx, j), [["subject", "a", kind] + (["0"] if kind == "behavior" else []), ["sub", ["ref", "a"], gen.NOREACT]] + pre +
+                          [["sub", ["ref", "a"], ["react", [str(idx), ["hnext", "a", "9"]]]], ["hnext", "a", "5"], ["sub", ["ref", "a"], gen.NOREACT], ["hcomplete", "a"]])
+                 for kind in ("replay", "behavior", "plain", "async") for idx in (0, 1, 2)
+                 for j, pre in enumerate(([], [["hnext", "a", "1"]], [["hnext", "a", "1"], ["hnext", "a", "2"], ["hnext", "a", "3"]]))])
     if prop == "C13":
         return gen.fam_connectables(g, "C13-conn", 150 * k) + gen.fam_conn_reentrant(g, "C13-re", 0) + gen.fam_late_unsub(g, "C13-late")
     if prop == "C14":
@@ -105,7 +113,7 @@ SEQ = {
     "C02": dict(oracle=None, proj=EV, reference=True),
     "C03": dict(oracle=None, proj=EV, reference=True),
     "C04": dict(oracle=None, proj=("ev", "probe"), reference=True),
-    "C05": dict(oracle="C05", proj=("ev", "S"), reference=True),
+    "C05": dict(oracle="C05", proj=("ev", "S", "x"), reference=True),
     "C06": dict(oracle="C06", proj=("ev", "probe", "tap", "L", "O"), reference=False),
     "C07": dict(oracle="C07", proj=(), reference=False),
     "C10": dict(oracle="C10", proj=("ev", "O"), reference=True),
